@@ -256,6 +256,8 @@ const MULTIEVAL_THRESHOLD: f64 = 80e3;
 pub fn pm1_impl(n: &Uint, b1: u64, b2: f64, verbosity: Verbosity) -> Option<(Vec<Uint>, Uint)> {
     let mut factors = vec![];
     let start1 = std::time::Instant::now();
+    #[cfg(yamaquasi_verif)]
+    crate::params::verif_strategy_record("pm1", 1, b1, b2);
     let (b2real, _, _) = stage2_params(b2);
     if verbosity >= Verbosity::Info {
         eprintln!("Attempting P-1 with B1={b1} B2={b2real:e}");
@@ -284,6 +286,8 @@ pub fn pm1_impl(n: &Uint, b1: u64, b2: f64, verbosity: Verbosity) -> Option<(Vec
             // process exponent block
             if stop || 1 << expblock.leading_zeros() <= pow {
                 if !largeblocks {
+                    #[cfg(yamaquasi_verif)]
+                    verif_pm1_record(&U1024::from_digit(expblock));
                     g = exp_modn(&zn, &g, expblock);
                     gpows.push(zn.sub(&g, &zn.one()));
                     expblock = 1;
@@ -293,6 +297,8 @@ pub fn pm1_impl(n: &Uint, b1: u64, b2: f64, verbosity: Verbosity) -> Option<(Vec
                 }
             }
             if stop || expblock_lg.bits() > 1024 - 64 {
+                #[cfg(yamaquasi_verif)]
+                verif_pm1_record(&expblock_lg);
                 g = exp_modn_large(&zn, &g, &expblock_lg);
                 gpows.push(zn.sub(&g, &zn.one()));
                 expblock_lg = U1024::ONE;
@@ -944,3 +950,31 @@ pub fn verif_stage2_params(b2: f64) -> (f64, u64, u64) {
 #[cfg(yamaquasi_verif)]
 #[doc(hidden)]
 pub const VERIF_MULTIEVAL_THRESHOLD: f64 = MULTIEVAL_THRESHOLD;
+
+/// Recorder for the stage-1 exponent blocks actually used by `pm1_impl`:
+/// every exponent passed to `exp_modn`/`exp_modn_large` during stage 1 is pushed
+/// here while the recorder is `Some`.
+#[cfg(yamaquasi_verif)]
+pub static VERIF_PM1_BLOCKS: std::sync::Mutex<Option<Vec<Uint>>> = std::sync::Mutex::new(None);
+
+#[cfg(yamaquasi_verif)]
+fn verif_pm1_record(e: &U1024) {
+    if let Ok(mut g) = VERIF_PM1_BLOCKS.lock() {
+        if let Some(v) = g.as_mut() {
+            v.push(*e);
+        }
+    }
+}
+
+#[cfg(yamaquasi_verif)]
+impl PM1Base {
+    /// (exponent blocks of stage 1, stage-2 primes)
+    pub fn verif_blocks(&self) -> (Vec<u32>, Vec<u32>) {
+        (self.factors.to_vec(), self.larges.to_vec())
+    }
+}
+
+#[cfg(yamaquasi_verif)]
+pub fn verif_multieval_threshold() -> f64 {
+    MULTIEVAL_THRESHOLD
+}
